@@ -4,6 +4,10 @@
 From OfxV Require Import Base.Prelude Base.Digits Gen.ScalarsGen Model.PyDecimal Model.Scalars Model.ScalarsLex.
 Local Open Scope N_scope.
 
+(** big integers are written in the case files as base-10^18 chunks, most significant first *)
+Definition bigZ (neg : bool) (chunks : list N) : Z :=
+  let m := Z.of_N (fold_left (fun a c => a * 1000000000000000000 + c) chunks 0) in if neg then (- m)%Z else m.
+
 Inductive scase :=
 | SConv (e : elem) (v : pyval) (exp : result (pyval * bool))           (* e.convert(v), warned? *)
 | SUnconv (e : elem) (v : pyval) (exp : result (option text * bool))   (* e.unconvert(v), warned? *)
